@@ -235,6 +235,9 @@ func (l *lowerer) objectBody(t *Type) []*dt.Node {
 }
 
 func (l *lowerer) attribute(f *Field) *dt.Node {
+	if f.ErrName {
+		return l.namedAttr("ErrorName", f.Name, f.Attr, f.Tag)
+	}
 	return l.namedAttr("Attribute", f.Name, f.Attr, f.Tag)
 }
 
